@@ -76,12 +76,13 @@ impl Prop for C13Prop {
             large_pct: 25,
             n_small: (2, 14),
             n_large: (15, 40),
-            regimes: vec![WeightRegime::AllNan, WeightRegime::Dyadic, WeightRegime::Nasty, WeightRegime::SmallInt],
+            regimes: vec![WeightRegime::AllNan, WeightRegime::Dyadic, WeightRegime::Nasty, WeightRegime::SmallInt, WeightRegime::FineDyadic, WeightRegime::Tiny, WeightRegime::Overflowing],
             kinds: AlgoGen::all_kinds(),
-            shapes: Some(vec![Shape::Path, Shape::Cycle, Shape::Cycle, Shape::Star, Shape::Cliques, Shape::Cliques, Shape::Bipartite, Shape::Gnp, Shape::Union, Shape::Grid, Shape::Tree, Shape::NestedScc]),
+            shapes: Some(vec![Shape::Path, Shape::Cycle, Shape::Cycle, Shape::Star, Shape::Cliques, Shape::Cliques, Shape::Bipartite, Shape::Gnp, Shape::Union, Shape::Grid, Shape::Tree, Shape::NestedScc, Shape::GradedHub]),
             lifecycle_pct: 25,
             keyings: 1,
             boundary_per_mille: 0,
+            huge_one_in: 800,
         }
         .gen("C13", seed, idx);
         if idx % 40 == 39 {
@@ -185,6 +186,13 @@ impl Prop for C13Prop {
             let mut prev = orc::modularity(snap, &single, a.weighted, a.resolution);
             for (k, l) in canon.iter().enumerate() {
                 let q = orc::modularity(snap, &to_sets(l), a.weighted, a.resolution);
+                if !q.is_finite() || !prev.is_finite() {
+                    // sums or products of the weights overflow: modularity is not a number any more; what
+                    // remains of the property is termination, partitions and nesting
+                    cx.count("probe.modularity_not_finite");
+                    prev = q;
+                    continue;
+                }
                 if q < prev - 1e-9 {
                     cx.fail(
                         "C13.modularity_decreases",
@@ -232,7 +240,7 @@ impl Prop for C13Prop {
     }
     fn cross(&self, _case: &Case, _results: &[EnvResult], _cx: &mut Ctx) {}
     fn rule(&self) -> String {
-        "graphs of all 8 kinds with >= 1 edge: paths, cycles, stars, cliques joined by bridges, bipartite, G(n,p), unions, grids, trees, nested SCCs (n <= 40) and lifecycle-built graphs (n <= 8), unweighted or positive weights; seeds, resolution in (0,2], threshold in {0,1e-7,1e-3,0.1,1}; each case under 4 (quick) / 8 (thorough) hash keyings; every louvain call runs under the step budget 3e5 + 3e4 (n+m) allocations (exceeding it = did not terminate). Oracle: Ok with >= 1 level, every level a partition into non-empty communities, each level a coarsening of the previous, on single-edge graphs the oracle's own modularity is non-decreasing from singletons along the levels, louvain_communities = last level (both in fresh threads with equal keying). distinct_nontrivial = distinct (graph, arguments) with >= 1 edge".into()
+        "graphs of all 8 kinds with >= 1 edge: paths, cycles, stars, cliques joined by bridges, bipartite, G(n,p), unions, grids, trees, nested SCCs (n <= 40) and lifecycle-built graphs (n <= 8), unweighted or positive weights; seeds, resolution in (0,2], threshold in {0,1e-7,1e-3,0.1,1}; each case under 4 (quick) / 8 (thorough) hash keyings; every louvain call runs under the step budget 3e5 + 3e4 (n+m) allocations (exceeding it = did not terminate). Oracle: Ok with >= 1 level, every level a partition into non-empty communities, each level a coarsening of the previous, on single-edge graphs the oracle's own modularity is non-decreasing from singletons along the levels, louvain_communities = last level (both in fresh threads with equal keying). distinct_nontrivial = distinct (graph, arguments) with >= 1 edge; one case in 800 is a dense graph (1-3 blocks, 60-300 nodes) with 2 100 - 12 500 stored edges under a pool of 2-16 workers (strategy thresholds); weights also 1 + k 2^-j, 1e-17-scale, and finite weights whose sums / products overflow (1e308, MAX/4: modularity then is not a number and only termination, partitions and nesting are judged); shape 'hub joined to 3-5 identical parts by spokes graded in steps of 2^-41..2^-35 or one ulp'".into()
     }
     fn assumptions(&self) -> Vec<String> {
         vec!["termination is decided by a step budget (allocations); max.louvain_steps in coverage.fired vs the budget shows the margin".into(), "modularity monotonicity is checked with the harness's own Newman formula, at 1e-9".into()]
